@@ -147,7 +147,7 @@ def print_assumptions(prop, timeout=600):
         if blk.startswith("Closed under"):
             res[name] = []
         else:
-            axs = re.findall(r"(?m)^([A-Za-z_][A-Za-z0-9_'.]*)\s*:", blk)
+            axs = re.findall(r"(?m)^([A-Za-z_][A-Za-z0-9_'.]*)\s*:", blk.split("\n", 1)[1] if "\n" in blk else "")   # skip the "Axioms:" header line
             res[name] = axs
     return True, res, ""
 
